@@ -17,20 +17,41 @@ template <class L> struct interp_of<1, L> { using type = cb::nearest_neighbour<L
 template <class L> struct interp_of<2, L> { using type = cb::linear<L>; };
 
 template <class B> struct ctx_t {
-    const typename field<B>::view_t * view;
-    typename field<B>::coordinate_t c;
-    uint64_t bits[4];
+    const typename field<B>::view_t * view[2];      // two fields of the same type with different extents
+    typename field<B>::coordinate_t c[2];
+    uint64_t bits[2][4];
 };
 
 template <class B> static void lookup(void * p)
 {
     auto * x = static_cast<ctx_t<B> *>(p);
-    auto r = x->view->at(x->c);
+    for (int w = 0; w < 2; w++) {
+        auto r = x->view[w]->at(x->c[w]);
 #ifndef VF_NATIVE
-    for (size_t j = 0; j < B::covariant_output_t::dimensions; j++) x->bits[j] = vf_bits<uint32_t>(static_cast<float>(r[j]));
+        for (size_t j = 0; j < B::covariant_output_t::dimensions; j++) x->bits[w][j] = vf_bits<uint32_t>(static_cast<float>(r[j]));
 #else
-    (void)r;       // natively the threads share ctx: only the library's own accesses may be visible to TSan
+        (void)r;       // natively the threads share ctx: only the library's own accesses may be visible to TSan
 #endif
+    }
+}
+
+template <class LB, size_t N, size_t M> static typename LB::owning_data_t filled(size_t ext)
+{
+    utility::nd_size<N> s;
+    size_t total = 1;
+    for (size_t k = 0; k < N; k++) { s[k] = ext; total *= ext; }
+    typename LB::owning_data_t lay = [&] {
+        if constexpr (std::is_constructible_v<typename LB::owning_data_t, typename LB::configuration_t>) return typename LB::owning_data_t(typename LB::configuration_t(s));
+        else return typename LB::owning_data_t(typename LB::configuration_t(s), typename LB::backend_t::owning_data_t(utility::ipow(utility::round_pow2(ext), N)));
+    }();
+    typename LB::non_owning_data_t v(lay);
+    for (size_t i = 0; i < total; i++) {
+        typename LB::contravariant_input_t::vector_t c;
+        size_t r = i;
+        for (size_t k = N; k-- > 0;) { c[k] = r % s[k]; r /= s[k]; }
+        for (size_t j = 0; j < M; j++) v.at(c)[j] = vf_bits<float>(vf_nondet_u32());
+    }
+    return lay;
 }
 
 template <int LAYOUT, int INTERP, size_t N, class V, size_t EXT> static void footprint_h()
@@ -38,59 +59,48 @@ template <int LAYOUT, int INTERP, size_t N, class V, size_t EXT> static void foo
     using LB = typename layout_of<LAYOUT, N, V>::type;
     using B = typename interp_of<INTERP, LB>::type;
     constexpr size_t M = V::size;
-    // a field with EXT^N cells of symbolic contents
-    utility::nd_size<N> s;
-    size_t total = 1;
-    for (size_t k = 0; k < N; k++) { s[k] = EXT; total *= EXT; }
-    size_t mx = EXT;
-    typename LB::owning_data_t lay = [&] {
-        if constexpr (std::is_constructible_v<typename LB::owning_data_t, typename LB::configuration_t>) return typename LB::owning_data_t(typename LB::configuration_t(s));
-        else return typename LB::owning_data_t(typename LB::configuration_t(s), typename LB::backend_t::owning_data_t(utility::ipow(utility::round_pow2(mx), N)));
-    }();
-    {
-        typename LB::non_owning_data_t v(lay);
-        for (size_t i = 0; i < total; i++) {
-            typename LB::contravariant_input_t::vector_t c;
-            size_t r = i;
-            for (size_t k = N; k-- > 0;) { c[k] = r % s[k]; r /= s[k]; }
-            for (size_t j = 0; j < M; j++) v.at(c)[j] = vf_bits<float>(vf_nondet_u32());
-        }
-    }
-    field<B> f = [&] {
-        if constexpr (INTERP == 0) return field<B>(make_parameter_pack(std::move(lay)));
-        else return field<B>(make_parameter_pack(std::monostate{}, std::move(lay)));
-    }();
-    typename field<B>::view_t view(f);
+    constexpr size_t ext[2] = {EXT, EXT + 1};          // different extents (and different enclosing power-of-two squares)
+    auto mk = [&](size_t e) {
+        if constexpr (INTERP == 0) return field<B>(make_parameter_pack(filled<LB, N, M>(e)));
+        else return field<B>(make_parameter_pack(std::monostate{}, filled<LB, N, M>(e)));
+    };
+    field<B> f0 = mk(ext[0]), f1 = mk(ext[1]);
+    typename field<B>::view_t view0(f0), view1(f1);
     ctx_t<B> x;
-    x.view = &view;
-    for (size_t k = 0; k < N; k++) {
-        if constexpr (INTERP == 0) {
-            size_t a = vf_nondet_size();
-            vf_assume(a < EXT);
-            x.c[k] = a;
-        } else {
-            float a = vf_nondet_f32();
-            vf_assume(a >= 0.0f && a < float(EXT - 1));      // inside the grid (linear reads i and i+1)
-            x.c[k] = a;
+    x.view[0] = &view0;
+    x.view[1] = &view1;
+    for (int w = 0; w < 2; w++)
+        for (size_t k = 0; k < N; k++) {
+            if constexpr (INTERP == 0) {
+                size_t a = vf_nondet_size();
+                vf_assume(a < ext[w]);
+                x.c[w][k] = a;
+            } else {
+                float a = vf_nondet_f32();
+                vf_assume(a >= 0.0f && a < float(ext[w] - 1));      // inside the grid (linear reads i and i+1)
+                x.c[w][k] = a;
+            }
         }
-    }
-    // everything another thread could see: the view, the field, the buffer
-    vf_share(&view);
-    vf_share(&f);
-    vf_share(vf::array_of(f.backend()).m_ptr.get());
+    // everything another thread could see: the views, the fields, the buffers
+    vf_share(&view0); vf_share(&view1);
+    vf_share(&f0); vf_share(&f1);
+    vf_share(vf::array_of(f0.backend()).m_ptr.get());
+    vf_share(vf::array_of(f1.backend()).m_ptr.get());
     vf_concurrently(&lookup<B>, &x);
     vf_region_end(0);
     vf_assert(vf_region_outer_stores() == 0, 1);      // no store to shared or non-stack memory
     vf_assert(vf_region_bad() == 0, 2);               // no mutable global, thread_local, atomic, static-local guard
-    // determinism: the same lookup through a second (per-thread) copy of the view gives the same bits
-    typename field<B>::view_t view2(f);
+    // determinism: the same lookups through second (per-thread) copies of the views give the same bits
+    typename field<B>::view_t v0b(f0), v1b(f1);
     ctx_t<B> y = x;
-    y.view = &view2;
+    y.view[0] = &v0b;
+    y.view[1] = &v1b;
 #ifndef VF_NATIVE
     if constexpr (INTERP != 2) {      // (linear: equality of two floating-point expression DAGs is not asked of the solver)
         lookup<B>(&y);
         bool same = true;
-        for (size_t j = 0; j < M; j++) same = same && x.bits[j] == y.bits[j];
+        for (int w = 0; w < 2; w++)
+            for (size_t j = 0; j < M; j++) same = same && x.bits[w][j] == y.bits[w][j];
         vf_assert(same, 3);
     } else {
         vf_assert(true, 3);
